@@ -11,6 +11,10 @@ func RemoveMatchComments(file *ast.File, pattern *regexp.Regexp) {
 	for _, group := range file.Comments {
 		_ = ExtractMatchComments(group, pattern)
 	}
+	// A group that lost all its lines has no position: it must not stay linked as the file's doc comment.
+	if file.Doc != nil && len(file.Doc.List) == 0 {
+		file.Doc = nil
+	}
 }
 
 // MatchComments reports whether any comment line in commentGroup contains
